@@ -7,6 +7,8 @@
    FromCN(b,n) : C buffer + explicit length -> Go string: the first n bytes, NULs included
    Law: FromC(ToC(s)) is s up to its first NUL (the identity when s has none);
         FromCN(ToC(s), Len(s)) = s always;  []byte -> (pointer, length) -> []byte is the identity. *)
+\* Snapshot: the Go string obtained from a C buffer is a value of its own - overwriting (or freeing) the buffer afterwards
+\* does not change it; the harness scribbles over the buffer after the conversion and reads the string again ("late").
 EXTENDS Integers, Sequences, TLC, Json
 
 CONSTANTS Tokens,     \* set of byte tokens, contains 0
